@@ -111,6 +111,14 @@ func blsVerifier(parties []uint16, t int, stored map[uint16][]byte) (*bls.Verifi
 	return v, v.Init(pp)
 }
 
+func thresholdPKOf(parties []uint16, t int, stored map[uint16][]byte) ([]byte, error) {
+	sg, err := (scheme{Name: "bls"}).signerFrom(parties[0], parties, t, stored[parties[0]])
+	if err != nil {
+		return nil, err
+	}
+	return sg.ThresholdPK()
+}
+
 func wit0(S []uint16) map[string]interface{} { return map[string]interface{}{"signers": S} }
 
 func c09bls(e common.Env, p *common.Part, n, t int, rng *mrand.Rand) {
@@ -180,6 +188,33 @@ func c09bls(e common.Env, p *common.Part, n, t int, rng *mrand.Rand) {
 				// multiplicative one above is the only key-free transfer
 			}
 			p.Count("message_transfer_forgeries", int64(2*len(maps)))
+		}
+		// ONE long-lived Verifier object that is re-keyed: Init(key 1), verify; Init(key 2) on the same object, and the signature made
+		// under key 1 is presented again for the same digest (it must be rejected now), the genuine signature under key 2 accepted;
+		// then back to key 1. Whatever a verifier remembers from earlier calls must not outlive the key it belongs to.
+		{
+			pk1, e1 := thresholdPKOf(parties, t, stored)
+			pk2, e2 := thresholdPKOf(parties, t, other)
+			var sigs2 [][]byte
+			for _, sgn := range S {
+				sigs2 = append(sigs2, blsPartial(parties, t, other, sgn, d1[:]))
+			}
+			if e1 == nil && e2 == nil {
+				lv := &bls.Verifier{}
+				if lv.Init(pk1) == nil && o.expectAccept("long-lived verifier, key 1", lv.Verify(d1[:], agg)) {
+					if lv.Init(pk2) == nil {
+						o.expectReject("key", "signature under key 1 presented to a verifier object re-initialised with key 2 (same digest as its last verification)", lv.Verify(d1[:], agg), wit)
+						if agg2, err := lv.AggregateSignatures(sigs2, S); err == nil {
+							o.expectAccept("genuine signature under key 2 at a verifier object re-initialised with key 2", lv.Verify(d1[:], agg2))
+							if lv.Init(pk1) == nil {
+								o.expectReject("key", "signature under key 2 presented to a verifier object re-initialised with key 1", lv.Verify(d1[:], agg2), wit)
+								o.expectAccept("genuine signature under key 1 at a verifier object re-initialised with key 1 again", lv.Verify(d1[:], agg))
+							}
+						}
+					}
+					p.Count("rekeyed_verifier_sequences", 1)
+				}
+			}
 		}
 		for i := range S {
 			// share perturbed by one group unit
